@@ -34,6 +34,7 @@ BOUNDED = {
     "C09-bitwise-not-opcode": ([("C09", "C09")], "'~x' is lowered to the opcode 'neg', which is not an IC10 instruction (pinned by binop.ref)", "unknown opcode 'neg'"),
     "C09-none-operand": ([("C09", "C09")], "'db.Setting = None' emits an instruction with a missing operand", "operands"),
     "C09-complex-literal": ([("C09", "C09")], "'(-8) ** 0.5' folds to a Python complex and is printed verbatim", "Python spelling"),
+    "C09-line-separator-in-name": ([("C09", "C09")], "a name containing a Unicode line separator (U+2028, also \\x0c, \\x1c, \\x85) inside HASH('..') is split over two output lines (the layout code uses splitlines())", ""),
     "C09-hex-beyond-64-bit": ([("C09", "C09")], "integers of 2**63 and above are printed as $hex literals that do not fit 64 bits", "does not fit"),
 }
 
